@@ -30,6 +30,10 @@ RULE = ("pairs of random histories sharing a prefix of k bars (k random, suffixe
         "Per pair: history 1, then the SAME strategy object on the SAME frames with a fresh Actuator/Broker/markets (same process), then history 2. "
         "Compared on the common prefix: account rows, every field of every market's balance entry per bar, actions, snapshots; within each run: "
         "the history entry of a bar as the strategy reads it right after the bar against the entry the finished run holds (append-only history). "
+        "Rerun order (E-7): strategies whose trigger objects are built once — 0..2 in strategy.triggers when run() is called, 1..3 appended in place by "
+        "initialize() on every run; period / periods / at-time / range — run twice with fresh Actuators: oracle (second run = first, list handed back = "
+        "list found) and correspondence with the model's runG2 / rerun2 through driver request run_g2 (bucket says whether the older reading, reset "
+        "before initialize(), would answer differently). "
         "Every supplied frame is hashed when built, after set_price / data hand-over and after the run (column labels + their dtype, column dtypes, "
         "index class / dtype / names / freq / tz / labels in row order, attrs, every cell with its Python type, nested lists); the process-wide "
         "Decimal context is compared before/after each run; bucket = (market mix, interval, price cells/form, late-feed class, row order, holes, "
